@@ -1,6 +1,10 @@
 """What MANIFEST.json claims, per property.  tools/gen_manifest.py turns this into the manifest."""
 
 ENGINES = [
+  {"name": "detsched", "path": "/verif/harness/detsched.py", "serves_properties": [],
+   "kind_free_text": "deterministic scheduler: baton-passing real threads, pre-emption at source-line or "
+                     "bytecode granularity, virtual threading/queue/time primitives, schedules as generated values, "
+                     "exact deadlock detection, virtual clock"},
   {"name": "hypothesis-harness", "path": "/verif/harness",
    "serves_properties": [],
    "kind_free_text": "Hypothesis-driven generated-input search against explicit oracles (reference "
@@ -117,6 +121,37 @@ _c("C09", "model deque oracle with the consumer parked behind a gate",
    "Exploration: generated mixes of posts and fifo/lifo-subscribed publications placed while the object's thread "
    "is parked; dispatch order after the gate equals the model deque.", _SCHED)
 
+_c("C10", "virtual-clock testing: exact posting instants under a deterministic scheduler",
+   "Exploration: generated periods/repeat counts/deferral flags/queue kinds and 1-3 concurrent sources; posting "
+   "instants compared exactly with repeated float addition; placement checked against a model deque.", _SCHED)
+_c("C11", "schedule fuzzing of cancellation against timer threads at coinciding virtual instants",
+   "Exploration: cancel_event/cancel_events with identical, rebuilt and round-tripped arguments at instants that "
+   "coincide with firings; no posting invoked after the cancelling call returned; other sources undisturbed.",
+   _SCHED + " One recorded finding (check-then-post window) is excluded by construction, see known_findings.json.")
+_c("C12", "schedule fuzzing of stop() from outside and from a handler, with timers and a slow step",
+   "Exploration: thread liveness, no later RTC step, no later timer posting, the rest of the system keeps working.", _SCHED)
+_c("C13", "model-based testing of fabric lifecycles (start/stop/clear/subscribe/publish/objects)",
+   "Exploration: live delivery threads (identified black-box), is_alive(), exactly-once delivery, objects halting "
+   "after stop, delivery after restart.", _SCHED)
+_c("C17", "differential testing of five builds of one generated chart against the reference model",
+   "Exploration: hand-written, template (two charts of one recipe), to_code(template), Factory as a started "
+   "active object, to_code(factory); identical callback action logs and resting states.",
+   "Trusts the reference model; Factory build runs under the deterministic scheduler (round-robin).")
+_c("C25", "model-based testing (sequential) + bytecode-granular schedule fuzzing (concurrent registration)",
+   "Exploration: registry bijection, stable numbers, inverse lookup, inner-signal classification, Event "
+   "consistency; concurrent registrations pre-empted at every bytecode of miros/event.py.", _SCHED)
+_c("C27", "schedule fuzzing of generated multi-threaded programs; serializability oracle",
+   "Exploration: 2-3 threads of assignments/augmented assignments/reads on one attribute; final value must be "
+   "the result of some serial order (all enumerated); no thread error, no deadlock.", _SCHED)
+_c("C30", "schedule fuzzing of concurrent first requests with fine run lengths",
+   "Exploration: 2-4 threads request the lazily created singletons (directly and by constructing active "
+   "objects) starting from empty instance slots; one identity per singleton.", _SCHED)
+_c("C31", "virtual-clock testing of a rejected timed post",
+   "Exploration: source limit reached (QUEUE_SIZE 1..5 by subclass; 500 in thorough), further posts must raise, "
+   "never fire, and leave the tracked sources on schedule.", _SCHED)
+
 NOT_APPLICABLE = {}
+_SCHED_PROPS = ["C04", "C05", "C06", "C07", "C08", "C09", "C10", "C11", "C12", "C13", "C17", "C21", "C25",
+                "C27", "C30", "C31"]
 for _e in ENGINES:
-  _e["serves_properties"] = sorted(CLAIMED)
+  _e["serves_properties"] = sorted(CLAIMED) if _e["name"] == "hypothesis-harness" else _SCHED_PROPS
